@@ -353,6 +353,15 @@ def run(tier, seed):
                  dict(names=["a", "b_i", "c", "d_i", "e", "f_i", "g"], ign=["b_i", "d_i", "f_i"], conv="mixed",
                       non_ignored=["a", "c", "d_i", "e", "f_i", "g"], ignored=["b_i", "d_i", "f_i"], ri="default",
                       skips=[], kind="count", n=2),
+                 # names of which one is a proper prefix of another and continues with a byte below ':' (the listing
+                 # lines are "name: test"): name order is the order of the names, not of the lines
+                 dict(names=["parse", "parse2", "case_1", "case_10", "slow", "slow2", "zeta", "a-b", "a"],
+                      ign=["slow", "slow2"], conv="libtest",
+                      non_ignored=["a", "a-b", "case_1", "case_10", "parse", "parse2", "slow", "slow2", "zeta"],
+                      ignored=["slow", "slow2"], ri="all", skips=[], kind="count", n=2),
+                 dict(names=["parse", "parse2", "case_1", "case_10", "zeta"], ign=[], conv="libtest",
+                      non_ignored=["zeta", "parse2", "parse", "case_10", "case_1"], ignored=[], ri="default",
+                      skips=[], kind="count", n=3),
                  # a test accepted by a name filter AND by a filterset is still partitioned
                  dict(names=["net_a", "net_b", "net_c", "io_a", "net_d", "io_b"], ign=[], conv="libtest",
                       non_ignored=["net_a", "net_b", "net_c", "io_a", "net_d", "io_b"], ignored=[], ri="default",
